@@ -49,9 +49,13 @@ fn run_once(texts: &[String], options: &str) -> Outcome {
     let refs: Vec<&str> = texts.iter().map(|s| s.as_str()).collect();
     let (opts, _) = parse_options(options);
     let state = slicec::compile_from_strings(&refs, Some(&opts));
-    let per_file: BTreeMap<String, (String, String)> = state.files.iter().map(|f| (f.raw_text.clone(), (file_ast(f), file_spans(f)))).collect();
-    let text_of: BTreeMap<String, String> = state.files.iter().map(|f| (f.relative_path.clone(), f.raw_text.clone())).collect();
     let accepted = !state.diagnostics.has_errors();
+    // the compiled content is only compared (and only meaningful) for accepted programs: the type references of a program the
+    // alias gate rejected (`typealias A = Sequence<A>`, E019) form a cycle, on which the dumper's descent would never end
+    let per_file: BTreeMap<String, (String, String)> = if accepted {
+        state.files.iter().map(|f| (f.raw_text.clone(), (file_ast(f), file_spans(f)))).collect()
+    } else { BTreeMap::new() };
+    let text_of: BTreeMap<String, String> = state.files.iter().map(|f| (f.relative_path.clone(), f.raw_text.clone())).collect();
     let request = if accepted && state.files.iter().all(|f| f.module.is_some()) { encode_request(&state.files) } else { None };
     let files = state.files;
     let diags = state.diagnostics.into_updated(&state.ast, &files, &opts);
